@@ -14,7 +14,8 @@ RULE = ('small space enumerated: region start in {0,3}, length 1..Lmax, bin size
         'every blacklist of <=2 intervals (plus sampled 3-interval ones) with end points in [start-2, end+2]; large random regions '
         '(up to 1e6, up to 12 blacklist intervals, overlapping/adjacent/touching the ends); blacklisted_binning_contigs with a BED file; '
         'fill_range and bp_chunked on random inputs. A case is non-trivial when the blacklist intersects the region or the region '
-        'needs more than one bin; distinct = distinct (start,end,bin,fragment,blacklist) tuples.')
+        'needs more than one bin; distinct = distinct (start,end,bin,fragment,blacklist) tuples.'
+        ' Plus regions near / beyond 2^31, BED blacklists with shuffled lines or gzip compression, and a blacklist rewritten in place between two tilings.')
 ASSUMPTIONS = ['blacklist intervals are half-open [start,end) with start<end, as the code documents',
                'fetch windows are only required to be contained and to extend by at most the fragment size (maximality is reported, not demanded)']
 MIN_NONTRIVIAL = {'quick': 3000, 'thorough': 100000}
